@@ -183,6 +183,9 @@ var c18Exotic = []error{
 	ErrWaitExceedsDeadline,
 	&FError{MainErr: ErrRetriesExceeded, Attempts: 2},
 	&FError{MainErr: context.Canceled, Attempts: 1},
+	// the failure of an inner retry that collected errors of its own (Quick inside Slow in the device service)
+	&FError{MainErr: ErrRetriesExceeded, Attempts: 5, Others: []error{c18User[0], c18User[1], c18User[2], c18User[3], c18User[4]}},
+	&FError{MainErr: ErrRetriesExceeded, Attempts: 2, Others: []error{c18User[5], c18User[6]}},
 }
 
 func c18Outcome(tok string) (bool, error) {
@@ -451,6 +454,12 @@ func TestVerifC18(t *testing.T) {
 			seed, _ := strconv.ParseInt(f[4], 10, 64)
 			retries, _ := strconv.Atoi(f[5])
 			ebo := ExpBackOff{BackOff: time.Duration(base), Max: time.Duration(max), Jitter: jit}
+			// how long each run of the operation takes before it fails (a dial or send that times out)
+			var opDur time.Duration
+			if len(f) > 6 {
+				d, _ := strconv.ParseInt(f[6], 10, 64)
+				opDur = time.Duration(d)
+			}
 			draws := make([]int64, retries+8)
 			if jit {
 				rand.Seed(seed)
@@ -464,6 +473,9 @@ func TestVerifC18(t *testing.T) {
 			_ = ebo.RetryWithCtx(tctx, retries, func(context.Context) (bool, error) {
 				starts = append(starts, time.Now())
 				defer func() { ends = append(ends, time.Now()) }()
+				if opDur > 0 {
+					time.Sleep(opDur)
+				}
 				return true, c18User[1]
 			})
 			tcancel()
